@@ -524,8 +524,15 @@ def check_validation(ctx: Ctx, spec, schema, xml: bytes, defects: list, reqs: li
                 return not any(q == re.sub(r'\{[^}]*\}', '', pf) or q.startswith(re.sub(r'\{[^}]*\}', '', pf) + '/')
                                for pf in f10_prefixes)
             a = canon_seq([c for p, c in lz if outside(p)])
-            b = canon_seq([c for p, c in zip(eg.paths, eg.canon) if outside(p)])
-            if sorted(a) == sorted(b):
+            if tb is not None:
+                law0 = stable_partition_prediction(eg, tb)
+                b = [tb['table'][i] for i in law0 if i >= len(eg.errors) or outside(eg.paths[i])]
+                if tb['nonlocal']:
+                    a = [x for x in a if not STATEFUL.search(x[1])]
+                    b = [x for x in b if not STATEFUL.search(x[1])]
+            else:
+                b = canon_seq([c for p, c in zip(eg.paths, eg.canon) if outside(p)])
+            if sorted(a) == sorted(tuple(x) for x in b):
                 ctx.known_hit('C06-F10')
                 ctx.count('chunk-decl-xsi-type')
                 continue
@@ -545,7 +552,7 @@ def check_validation(ctx: Ctx, spec, schema, xml: bytes, defects: list, reqs: li
             law_canon = canon_seq([tb['table'][i] for i in law])
             if tb['nonlocal']:
                 law_canon = [x for x in law_canon if not STATEFUL.search(x[1])]
-            if not streaming and not f10_prefixes:
+            if not streaming and not f10_prefixes and not root_id_dup:
                 reqs.append({'op': 'lazyval', 'tree': eg.tree, 'k': 1, 'root': tb['root'], 'segs': tb['segs'],
                              'govs': tb['govs'], 'static': tb['static'], 'created': [], 'krefs': tb['krefs'],
                              'idrefs': tb['idrefs']})
